@@ -304,7 +304,6 @@ func (c *Caller) InvokeContext(ctx context.Context, id string, name string, args
 			calls = cc.(*callCache)
 		}
 	}
-	calls.Append(newCall(index, name, args))
 	var results *resultMap
 	if rm, ok := c.results.Get(id); ok {
 		results = rm.(*resultMap)
@@ -317,6 +316,9 @@ func (c *Caller) InvokeContext(ctx context.Context, id string, name string, args
 	}
 	result := make(chan returnValue, 1)
 	results.Set(index, result)
+	// publish the call only now: once it is in the cache the provider can take it and
+	// answer it, and an answer that finds no registered result channel is dropped.
+	calls.Append(newCall(index, name, args))
 	c.response(id)
 	if c.Timeout > 0 {
 		ctx, cancel := context.WithTimeout(ctx, c.Timeout)
